@@ -60,6 +60,9 @@ func VerifT3Replay() {
 	case "omitempty":
 		verifT3OmitEmpty()
 		return
+	case "encdepth":
+		verifT3EncDepth()
+		return
 	case "structtag":
 		verifT3StructTag()
 		return
@@ -679,6 +682,25 @@ func verifT3LongMidpoints() {
 				f, _ := iface.(float64)
 				v.Assert(math.Float64bits(f) == math.Float64bits(want), fmt.Sprintf("a %d-digit literal near a rounding midpoint (m=%d) decodes into interface{} as %x, strconv.ParseFloat gives %x", len(text), m, math.Float64bits(f), math.Float64bits(want)))
 			}
+		}
+	}
+}
+
+// verifT3EncDepth: values nested to the depths around the encoder's limit: the back end in use
+// encodes up to MaxStack-1 (4095) levels and reports an error from MaxStack on - the rule both
+// back ends are held to.
+func verifT3EncDepth() {
+	_ = v.Uint64("sp")
+	for d := 4093; d <= 4098; d++ {
+		var val interface{} = 1
+		for i := 0; i < d; i++ {
+			val = []interface{}{val}
+		}
+		_, err := ConfigDefault.Marshal(val)
+		if d <= 4095 {
+			v.Assert(err == nil, fmt.Sprintf("a value nested %d levels deep is refused", d))
+		} else {
+			v.Assert(err != nil, fmt.Sprintf("a value nested %d levels deep is encoded: the limit differs from the other back end's", d))
 		}
 	}
 }
